@@ -131,7 +131,15 @@ struct RangeEnc {
     cache_size: u64,
     out: Vec<u8>,
     shifts: u64,
+    /// bit i set: the range was exactly DIRECT_BIT_WATCH[i] right before a direct
+    /// bit halved it (the decoder's range register holds the same value there)
+    db_watch: u32,
 }
+
+/// Values of the range register around the point where halving it does / does not
+/// call for a refill byte: 2^25-1 and 2^25-2 halve to 2^24-1 (refill), 2^25 and
+/// 2^25+1 halve to 2^24 (no refill).
+pub const DIRECT_BIT_WATCH: [u32; 4] = [0x01FF_FFFF, 0x01FF_FFFE, 0x0200_0000, 0x0200_0001];
 
 impl RangeEnc {
     fn new() -> RangeEnc {
@@ -142,6 +150,7 @@ impl RangeEnc {
             cache_size: 1,
             out: Vec::new(),
             shifts: 0,
+            db_watch: 0,
         }
     }
     fn shift_low(&mut self) {
@@ -179,6 +188,13 @@ impl RangeEnc {
     }
     fn direct(&mut self, value: u32, nbits: u32) {
         for i in (0..nbits).rev() {
+            if self.range >> 2 == 0x007F_FFFF || self.range >> 1 == 0x0100_0000 {
+                for (k, w) in DIRECT_BIT_WATCH.iter().enumerate() {
+                    if self.range == *w {
+                        self.db_watch |= 1 << k;
+                    }
+                }
+            }
             self.range >>= 1;
             if (value >> i) & 1 == 1 {
                 self.low += self.range as u64;
@@ -250,6 +266,10 @@ impl RefEnc {
     }
     pub fn props(&self) -> Props {
         self.probs.props
+    }
+    /// which of DIRECT_BIT_WATCH the range register has held right before a direct bit
+    pub fn direct_bit_watch(&self) -> u32 {
+        self.rc.db_watch
     }
     /// number of bytes the range encoder is holding back (1 cached byte plus a
     /// run of pending 0xFF bytes that a later carry may still turn into 0x00)
